@@ -25,6 +25,8 @@
 #include <etl/variant.hpp>
 #include <etl/vector.hpp>
 
+#include <unistd.h>
+
 #include <algorithm>
 #include <functional>
 #include <map>
@@ -1181,9 +1183,15 @@ static std::string step(Line const& l)
         return cur->line();
     }
     if (!cur) return bad;
+    // After the first illegal transition the objects are in no defined state: the rest of the history is
+    // not executed (the comparison stops at the first failing line of a case anyway).
+    if (!reg.err.empty()) return "e=" + reg.err + " halted\thalted";
     if (l.op == "detail") return cur->detail();
-    if (l.op == "end") return cur->finish();
-    auto r = cur->step(l);
+    // watchdog: a corrupted owner can make a library loop run away; the alarm turns that into a crash of this
+    // line, which the runner reports as ub(exit:...) and restarts after
+    alarm(20);
+    auto r = l.op == "end" ? cur->finish() : cur->step(l);
+    alarm(0);
     return r.empty() ? bad : r;
 }
 
